@@ -8,6 +8,7 @@ Recorder      : records one event trace per real get_next_imf call (Leg C).
 ScriptedKernel: replaces the numeric kernels by stubs that follow a script taken from a TLC
                 behaviour, so that every control path of the unmodified loops can be driven (Leg B).
 """
+import copy
 import inspect
 import os
 from fractions import Fraction
@@ -29,8 +30,9 @@ def step12(step):
 class Recorder:
     """Context manager recording SiftLoopTrace events for every get_next_imf call."""
 
-    def __init__(self, emd, keep_arrays=False, keep_iterates=False):
+    def __init__(self, emd, keep_arrays=False, keep_iterates=False, check_env=False):
         self.keep_iter = keep_iterates
+        self.check_env = check_env      # re-build every envelope from the options configured at the call's entry
         self.sift = emd.sift
         self.support = emd.support
         self.traces = []          # finished traces (lists of events)
@@ -65,7 +67,8 @@ class Recorder:
         c = {'ev': [], 'k': 0, 'step': p['env_step_size'], 'maxit': p['max_iters'], 'method': p['stop_method'],
              'sd': p['sd_thresh'], 'ril': p['rilling_thresh'], 'eth': p['energy_thresh'], 'p': None, 'avg': None,
              'prev_p': None, 'prev_avg': None, 'upper': None, 'lower': None, 'traceable': st is not None,
-             'X': X.reshape(X.shape[0], -1).copy() if X.ndim >= 1 else X}
+             'X': X.reshape(X.shape[0], -1).copy() if X.ndim >= 1 else X, 'cfg_ok': 1,
+             'eo': copy.deepcopy(p['envelope_opts'] or {}), 'xo': copy.deepcopy(p['extrema_opts'] or {})}
         c['ev'].append({'e': 'Begin', 'method': str(p['stop_method']), 'max_iters': int(p['max_iters']),
                         'step': st if st is not None else -1, 'energy': int(p['energy_thresh'] is not None)})
         outer, self.cur = self.cur, c
@@ -124,9 +127,11 @@ class Recorder:
             c['ev'].append({'e': 'Top', 'k': c['k']})
             out = self.orig['interp_envelope'](X, *a, **k)
             c['upper'] = out
+            c['cfg_ok'] = self._as_configured(c, X, mode, out)
             return out
         out = self.orig['interp_envelope'](X, *a, **k)
         c['lower'] = out
+        c['cfg_ok'] = int(c['cfg_ok'] and self._as_configured(c, X, mode, out))
         ok = c['upper'] is not None and out is not None
         iter_ok = 1
         if c['k'] > 1:
@@ -136,8 +141,20 @@ class Recorder:
             iter_ok = int(c['X'].shape == c['p'].shape and np.array_equal(c['X'], c['p']))
         if ok:
             c['avg'] = np.mean([c['upper'], out], axis=0)[:, None]
-        c['ev'].append({'e': 'Env', 'k': c['k'], 'ok': int(ok), 'iter_ok': iter_ok})
+        c['ev'].append({'e': 'Env', 'k': c['k'], 'ok': int(ok), 'iter_ok': iter_ok, 'cfg_ok': c['cfg_ok']})
         return out
+
+    def _as_configured(self, c, X, mode, out):
+        """1 iff the envelope the loop obtained equals the one built from the options as configured at entry."""
+        if not self.check_env:
+            return 1
+        try:
+            ref = self.orig['interp_envelope'](np.array(X, copy=True), mode=mode, **copy.deepcopy(c['eo']), extrema_opts=copy.deepcopy(c['xo']))
+        except Exception:
+            return 0
+        if ref is None or out is None:
+            return int(ref is None and out is None)
+        return int(np.shape(ref) == np.shape(out) and np.array_equal(ref, out, equal_nan=True))
 
     def _stop_event(self, fired, indep, near):
         c = self.cur
@@ -165,7 +182,8 @@ class Recorder:
                 frac = float(np.mean(E > sd1))
                 big = bool(np.any(E > sd2))
                 indep = not (frac > tol or big)
-                near = (not np.all(np.isfinite(E))) or abs(frac - tol) <= 1e-12 or \
+                # (the fraction is a count divided by N: exact, so a fraction EQUAL to tol is decided, not excluded)
+                near = (not np.all(np.isfinite(E))) or \
                     bool(np.any(np.abs(E - sd1) <= 1e-9 * sd1)) or bool(np.any(np.abs(E - sd2) <= 1e-9 * sd2))
             self._stop_event(out[0], indep, near)
         return out
